@@ -402,6 +402,23 @@ def rule_str(fx, out):
             rets = [x['text'] for x in f.events if x['k'] == 'return']
             ok2 = any(r.startswith('it->') for r in rets)
             out.append(('R19.str', oid, HOLDS if (ok and ok2) else VIOLATED, 'insert only when the string is absent; the existing index is returned otherwise' if (ok and ok2) else 'insert is reachable when the string is already present, or the existing index is not returned', e['loc']))
+    # an index is only meaningful in the table of the array it was read from
+    seen2 = set()
+    for f in fx.fns:
+        if not f.get('cls', '').startswith('StringArrayT') or f.key in seen2: continue
+        seen2.add(f.key)
+        pnames = [p_['name'] for p_ in f['params']]
+        for e in f.events:
+            if e['k'] != 'call' or not e['name'].endswith('::lookup') or not e['args']: continue
+            a0 = e['args'][0]; recv = (e.get('obj') or '').replace(' ', '')
+            m = re.match(r'^(\w+)\[', a0)
+            want = None
+            if m and m.group(1) in pnames: want = '%s._table' % m.group(1)
+            elif a0.startswith('(*this)[') or a0.startswith('getitem('): want = '_table'
+            if want is None: continue
+            n += 1
+            out.append(('R19.str', 'str:lookup:%s(%s)' % (sname(f), a0), HOLDS if recv == want else VIOLATED,
+                        'index %s resolved in %s' % (a0, recv) if recv == want else 'the index %s is looked up in %s, but it was read from an array whose strings live in %s (another table numbers its strings differently)' % (a0, recv or '?', want), e['loc']))
     return n
 
 RULES = [('tmp', rule_tmp), ('acc', rule_acc), ('wguard', rule_wguard), ('wprop', rule_wprop), ('inv', rule_inv), ('tuple', rule_tuple), ('life', rule_life), ('buf', rule_buf), ('str', rule_str)]
@@ -440,7 +457,7 @@ def main(rep, ws, tier):
     for name, fnc in RULES:
         counts[name] = fnc(fx, out)
     emit(rep, out)
-    floors = {'acc': 2, 'wguard': 40, 'wprop': 15, 'inv': 3, 'tuple': 8, 'life': 3, 'buf': 20, 'str': 1}
+    floors = {'acc': 2, 'wguard': 40, 'wprop': 15, 'inv': 3, 'tuple': 8, 'life': 3, 'buf': 20, 'str': 5}
     for k, v in floors.items():
         rep.floor('R19.%s instances' % k, counts.get(k, 0), v)
     rep.floor('functions analysed for discarded exception objects', counts.get('tmp', 0), 3000)
